@@ -415,6 +415,23 @@ fn public_measure(c: &GsCase) -> Option<(f64, f64)> {
     }
 }
 
+/// The same play configured through the mode-agnostic `Performance` enum: the lazer flag is set with
+/// the enum's setter (after wrapping), the state generated through the enum.
+fn enum_state(c: &GsCase) -> rosu_pp::any::ScoreState {
+    let mut c2 = c.clone();
+    c2.lazer = None;
+    let mut e = match c.mode {
+        0 => rosu_pp::Performance::Osu(osu_perf(&c2)),
+        1 => rosu_pp::Performance::Taiko(taiko_perf(&c2)),
+        2 => rosu_pp::Performance::Catch(catch_perf(&c2)),
+        _ => rosu_pp::Performance::Mania(mania_perf(&c2)),
+    };
+    if let Some(l) = c.lazer {
+        e = e.lazer(l);
+    }
+    e.generate_state()
+}
+
 pub fn case_json(c: &GsCase) -> String {
     let o = Obj::new()
         .raw("mode", c.mode)
@@ -442,6 +459,19 @@ pub fn case_json(c: &GsCase) -> String {
         Ok(Some((g, b))) => o.raw("pub_gen", g.to_bits()).raw("pub_best", b.to_bits()),
         Ok(None) => o,
         Err(e) => o.str("panic_public_measure", &panic_msg(e)),
+    };
+    let o = match catch_unwind(AssertUnwindSafe(|| {
+        let via_enum = enum_state(c);
+        let direct: rosu_pp::any::ScoreState = match c.mode {
+            0 => osu_perf(c).generate_state().unwrap().into(),
+            1 => taiko_perf(c).generate_state().unwrap().into(),
+            2 => catch_perf(c).generate_state().unwrap().into(),
+            _ => mania_perf(c).generate_state().unwrap().into(),
+        };
+        via_enum == direct
+    })) {
+        Ok(eq) => o.raw("enum_eq", eq),
+        Err(e) => o.str("panic_enum", &panic_msg(e)),
     };
     match catch_unwind(AssertUnwindSafe(|| run_case(c))) {
         Ok((s1, s2, eq)) => o
